@@ -21,9 +21,12 @@ def specs(draw, tier):
     base = 10 ** draw(st.floats(-2, 2, **finite))
     spacing = [gen.r6(base * draw(st.floats(0.3, 3, **finite))) for _ in range(dim)]
     origin = [gen.r6(s * draw(st.floats(-20, 20, **finite))) for s in spacing]
-    kind = draw(st.sampled_from(["noise", "noise", "wave", "spikes", "blob"]))
+    kind = draw(st.sampled_from(["noise", "noise", "wave", "spikes", "blob"] * 3 + ["near-constant"]))
     f = {"kind": kind, "seed": draw(st.integers(0, 2**31)), "amp": gen.r6(10 ** draw(st.floats(-3, 3, **finite))), "offset": gen.r6(draw(st.sampled_from([0.0, 0.0, 1.0, -1.0, 3.0])) * draw(st.floats(0, 3, **finite)))}
     f["dtype"] = draw(st.sampled_from(["float64"] * 6 + ["int", "bool"]))  # the same kind of image as an integer / boolean field
+    if kind == "near-constant":  # fluctuations that are tiny compared with the mean value
+        f["rel_fluct"] = draw(st.sampled_from([1e-4, 1e-6, 1e-7, 1e-8]))
+        f["dtype"] = "float64"
     if kind == "wave":
         f["mode"] = [draw(st.integers(0, max(0, n // 2))) for n in shape]
         f["phase"] = gen.r6(draw(st.floats(0, 6.28, **finite)))
@@ -54,6 +57,9 @@ def make_grid(shape, spacing, origin):
 
 def make_data(shape, f):
     rng = np.random.default_rng(f["seed"])
+    if f["kind"] == "near-constant":
+        sign = -1.0 if f["seed"] % 2 else 1.0
+        return sign * f["amp"] * (1.0 + f["rel_fluct"] * rng.uniform(-1, 1, shape))
     if f["kind"] == "noise":
         d = rng.uniform(-1, 1, shape)
     elif f["kind"] == "wave":
@@ -192,6 +198,27 @@ class C16(Property):
             pass  # read-only results are fine
         k_again, S_again = get_structure_factor(field, smoothing=None)
         ctx.require(np.array_equal(k_again, k) and np.array_equal(S_again, S), "result-aliases-internal-state", "after modifying the returned arrays in place, the same call returns something else")
+        if spec["field"]["kind"] == "near-constant":
+            # only what is meaningful relative to the (tiny) values themselves: sign, the Parseval sum and the invariance under
+            # scaling, a whole-cell translation and a reflection, all relative to the largest value (the transform itself limits the
+            # accuracy to about 1e-15 / rel_fluct, i.e. 1e-7 at worst here)
+            ctx.cls(f"rel-fluct:{spec['field']['rel_fluct']:g}")
+            ctx.nontrivial = True
+            ctx.require(bool(np.all(S >= 0)), "near-constant:negative", f"min S = {S.min()}")
+            dev = data - data.mean()
+            exp_sum = float(np.dot(dev.ravel(), dev.ravel()) / np.dot(data.ravel(), data.ravel()))
+            ctx.require(abs(S.sum() - exp_sum) <= 1e-5 * exp_sum, "near-constant:parseval", f"sum S = {S.sum()} expected {exp_sum} (relative fluctuation {spec['field']['rel_fluct']})")
+            smax = float(S.max())
+            for label, arr in (("scale", t["scale"] * data), ("shift", np.roll(data, t["shift"], axis=tuple(range(dim)))), ("flip", np.flip(data))):
+                S_t = get_structure_factor(ScalarField(grid, arr), smoothing=None)[1]
+                ref = S if label != "flip" else None
+                if label == "flip":
+                    full = np.r_[np.nan, S].reshape(shape)
+                    for a_ in range(dim):
+                        full = np.roll(np.flip(full, axis=a_), 1, axis=a_)
+                    ref = full.ravel()[1:]
+                ctx.require(np.shape(S_t) == np.shape(ref) and bool(np.all(np.abs(S_t - ref) <= 1e-5 * smax)), f"near-constant:{label}-invariance", f"S changes under {label} by {float(np.abs(S_t - ref).max()) if np.shape(S_t) == np.shape(ref) else 'shape'} (largest value {smax})")
+            return
         nmodes = int(np.sum(S > 1e-12))
         shift_nontrivial = any(s % n for s, n in zip(t["shift"], shape)) or any(t["flip"]) or list(t["perm"]) != list(range(dim))
         ctx.nontrivial = nmodes >= 2 and bool(shift_nontrivial)
